@@ -877,4 +877,167 @@ example : removeFirst [.dense [[0, 1, 2]] [[1, 2, 3]], .dense [[0, 1]] [[1, 2]]]
   subst hd
   exact eq_shape_mismatch.2.1 _ _ _ _ (by decide)
 
+
+/-! ## Exact equality: where `==` *is* an equivalence -/
+
+private theorem omap_id {γ : Type} (o : Option γ) : Option.map id o = o := by cases o <;> rfl
+
+/-- `==` is not transitive in general (`close_not_trans`); restricted to *exactly equal* values it
+is an equivalence relation on well-formed datasets: reflexive, … -/
+theorem exact_refl {a : Data ℚ} (ha : a.WF) : exactEq a a = true := by
+  cases a with
+  | dense g r => simp [exactEq]
+  | irreg x => exact eqBy_self id ha.1
+
+/-- … symmetric (irregular data: whatever the orders of the two dictionaries; a pigeonhole argument), … -/
+theorem exact_symm {a b : Data ℚ} (ha : a.WF) (hb : b.WF) (h : exactEq a b = true) : exactEq b a = true := by
+  cases a with
+  | dense g r =>
+    cases b with
+    | dense g' r' =>
+      simp only [exactEq, Bool.and_eq_true, decide_eq_true_eq] at h ⊢
+      exact ⟨h.1.symm, h.2.symm⟩
+    | irreg y => simp [exactEq] at h
+  | irreg x =>
+    cases b with
+    | dense g' r' => simp [exactEq] at h
+    | irreg y =>
+      simp only [exactEq] at h ⊢
+      have hl := ((eqBy_iff id id x y).1 h).1
+      rw [eqBy_iff]
+      refine ⟨hl.symm, fun p hp => ?_⟩
+      have := eqBy_lookup ha.1 h p.1
+      simp only [omap_id] at this ⊢
+      rw [this, get?_of_mem hb.1 (show (p.1, p.2) ∈ y from hp)]
+      rfl
+
+/-- … and transitive. -/
+theorem exact_trans {a b c : Data ℚ} (ha : a.WF) (hb : b.WF) (h1 : exactEq a b = true) (h2 : exactEq b c = true) :
+    exactEq a c = true := by
+  cases a with
+  | dense g r =>
+    cases b with
+    | dense g' r' =>
+      cases c with
+      | dense g'' r'' =>
+        simp only [exactEq, Bool.and_eq_true, decide_eq_true_eq] at h1 h2 ⊢
+        exact ⟨h1.1.trans h2.1, h1.2.trans h2.2⟩
+      | irreg z => simp [exactEq] at h2
+    | irreg y => simp [exactEq] at h1
+  | irreg x =>
+    cases b with
+    | dense g' r' => simp [exactEq] at h1
+    | irreg y =>
+      cases c with
+      | dense g'' r'' => simp [exactEq] at h2
+      | irreg z =>
+        simp only [exactEq] at h1 h2 ⊢
+        have l1 := ((eqBy_iff id id x y).1 h1).1
+        have l2 := ((eqBy_iff id id y z).1 h2).1
+        rw [eqBy_iff]
+        refine ⟨l1.trans l2, fun p hp => ?_⟩
+        have e1 := eqBy_lookup ha.1 h1 p.1
+        have e2 := eqBy_lookup hb.1 h2 p.1
+        simp only [omap_id] at e1 e2 ⊢
+        rw [← e2, ← e1, get?_of_mem ha.1 (show (p.1, p.2) ∈ x from hp)]
+        rfl
+
+/-- Exactly equal datasets compare equal with `==` (the converse fails: `==` tolerates 10⁻⁸ + 10⁻⁵·|b|). -/
+theorem exact_imp_eq {a b : Data ℚ} (ha : a.WF) (h : exactEq a b = true) : eq a b = true := by
+  rw [eq_spec]
+  cases a with
+  | dense g r =>
+    cases b with
+    | dense g' r' =>
+      simp only [exactEq, Bool.and_eq_true, decide_eq_true_eq] at h
+      obtain ⟨rfl, rfl⟩ := h
+      exact ⟨rfl, CloseRows_refl _⟩
+    | irreg y => simp [exactEq] at h
+  | irreg x =>
+    cases b with
+    | dense g' r' => simp [exactEq] at h
+    | irreg y =>
+      simp only [exactEq] at h
+      obtain ⟨hl, hall⟩ := (eqBy_iff id id x y).1 h
+      refine ⟨hl, fun p hp => ?_⟩
+      have := hall p hp
+      simp only [omap_id] at this
+      exact ⟨p.2, this, rfl, CloseList_refl _⟩
+
+example : exactEq (.irreg [(0, ([[0, 1]], [1, 2])), (1, ([[0, 2]], [3, 4]))]) (.irreg [(1, ([[0, 2]], [3, 4])), (0, ([[0, 1]], [1, 2]))]) = true := by
+  decide
+
+/-! ## Multivariate objects: inherited list operators, not arithmetic -/
+
+/-- `mfd + other` is the *concatenation of the component lists* (through the constructor, hence the
+number-of-observations check), never a pointwise sum: the components of the left operand come out
+unchanged, followed by those of the right operand. -/
+theorem mv_add_is_concatenation {cs ds r : List (Data ℚ)} (h : mvAdd cs ds = .ok r) :
+    r = cs ++ ds ∧ r.length = cs.length + ds.length := by
+  unfold mvAdd at h
+  split at h
+  · cases h; exact ⟨rfl, List.length_append⟩
+  · cases h
+
+/-- … rejected (`ValueError`) exactly when the numbers of observations do not all agree. -/
+theorem mv_add_rejects (cs ds : List (Data ℚ)) :
+    mvAdd cs ds = .error .valueError ↔ allSameNobs (cs ++ ds) = false := by
+  unfold mvAdd
+  split <;> simp_all
+
+/-- `mfd * k` repeats the list of components `k` times (`k ≤ 0`: no component) and always succeeds on
+an object whose components agree on the number of observations. -/
+theorem mv_mul_is_repetition (cs : List (Data ℚ)) (k : Int) (h : allSameNobs cs = true) :
+    mvMul cs k = .ok (List.replicate k.toNat cs).flatten ∧
+      ((List.replicate k.toNat cs).flatten).length = k.toNat * cs.length := by
+  have hall : allSameNobs (List.replicate k.toNat cs).flatten = true := by
+    cases cs with
+    | nil =>
+      have : (List.replicate k.toNat ([] : List (Data ℚ))).flatten = [] := by
+        induction k.toNat with
+        | zero => rfl
+        | succ n ih => simp [List.replicate_succ, ih]
+      rw [this]; rfl
+    | cons c t =>
+      simp only [allSameNobs, List.all_eq_true, beq_iff_eq] at h
+      have hmem : ∀ d ∈ (List.replicate k.toNat (c :: t)).flatten, d.nObs = c.nObs := by
+        intro d hd
+        obtain ⟨l, hl, hdl⟩ := List.mem_flatten.1 hd
+        rw [List.eq_of_mem_replicate hl] at hdl
+        rcases List.mem_cons.1 hdl with rfl | hdt
+        · rfl
+        · exact h d hdt
+      cases hr : (List.replicate k.toNat (c :: t)).flatten with
+      | nil => rfl
+      | cons e es =>
+        rw [hr] at hmem
+        simp only [allSameNobs, List.all_eq_true, beq_iff_eq]
+        intro d hd
+        rw [hmem d (List.mem_cons_of_mem _ hd), hmem e List.mem_cons_self]
+  refine ⟨by simp [mvMul, hall], ?_⟩
+  simp [List.length_flatten]
+
+/-- `mfd == other` is list equality: equal iff the same number of components and pairwise `==`. -/
+theorem mv_eq_spec : ∀ cs ds : List (Data ℚ), mvEq cs ds = true ↔
+    cs.length = ds.length ∧ ∀ (i : Nat) (h : i < cs.length) (h' : i < ds.length), eq cs[i] ds[i] = true
+  | [], [] => by simp [mvEq]
+  | [], d :: ds => by simp [mvEq]
+  | c :: cs, [] => by simp [mvEq]
+  | c :: cs, d :: ds => by
+    simp only [mvEq, Bool.and_eq_true, mv_eq_spec cs ds, List.length_cons, Nat.add_right_cancel_iff]
+    constructor
+    · rintro ⟨h0, hl, hall⟩
+      refine ⟨hl, fun i h h' => ?_⟩
+      cases i with
+      | zero => simpa using h0
+      | succ i => simpa using hall i (by simpa using h) (by simpa using h')
+    · rintro ⟨hl, hall⟩
+      refine ⟨by simpa using hall 0 (by simp) (by simp), hl, fun i h h' => ?_⟩
+      have := hall (i + 1) (by simpa using h) (by simpa using h')
+      simp only [List.getElem_cons_succ] at this
+      exact this
+
+example : mvAdd [.dense [[0, 1]] [[1, 2]]] [.dense [[0, 1]] [[3, 4]]] = .ok [.dense [[0, 1]] [[1, 2]], .dense [[0, 1]] [[3, 4]]] := by
+  decide
+
 end C12
